@@ -51,6 +51,14 @@ def _depends_on(fn_node, expr, names: set[str], scope=None) -> bool:
     return False
 
 
+def stmt_of_(node):
+    """Innermost statement containing `node`."""
+    cur = node
+    while cur is not None and not isinstance(cur, ast.stmt):
+        cur = parent(cur)
+    return cur
+
+
 def run(ctx):
     repo = ctx.repo
     it0 = ctx.consts.interp
@@ -367,6 +375,31 @@ def run(ctx):
                         r4.check(not bad, f"K11 {fi.qualname}:{belief[0]}[{belief[1]}] before its filter", "a comprehension does not subscript a key before the filter that tests for it",
                                  fi.loc(bad[0] if bad else cond), why_fail=f"`{belief[0]}[{belief[1]}]` is evaluated for every element, the filter `{norm(cond)[:60]}` only afterwards: a row without the key raises KeyError")
     r4.ok("K11 census", f"{n_k11} key-presence filters inside comprehensions examined", "")
+    # K12: sibling traversals must agree on which children have an instance node: every loop over `self.children` that
+    # calls `<child>.xml_instance(...)` on each child must first skip the classes that do not define it
+    # (ExternalInstance rows sit in children lists but only declare a secondary instance)
+    ext_cls = repo.cls("pyxform.external_instance:ExternalInstance")
+    lacks = "xml_instance" not in {mname for c in it0.mro(ext_cls) for mname in c.methods}
+    n_k12 = 0
+    for fi in repo.all_functions():
+        if fi.fq not in reach:
+            continue
+        for loop_ in walk_own(fi.node):
+            if not (isinstance(loop_, ast.For) and norm(loop_.iter) == "self.children" and isinstance(loop_.target, ast.Name)):
+                continue
+            var = loop_.target.id
+            calls_xi = [c for c in ast.walk(loop_) if isinstance(c, ast.Call) and isinstance(c.func, ast.Attribute) and c.func.attr == "xml_instance"
+                        and isinstance(c.func.value, ast.Name) and c.func.value.id == var]
+            if not calls_xi:
+                continue
+            n_k12 += 1
+            for c in calls_xi:
+                gts = guard_texts(c, stop=loop_)
+                exits = {norm(t) for t, _p in early_exit_guards(stmt_of_(c), stop=loop_)}
+                skipped = any("ExternalInstance" in t and t.startswith("not ") for t in gts) or any("ExternalInstance" in t for t in exits)
+                r4.check(skipped or not lacks, f"K12 {fi.qualname}:{var}.xml_instance()", "children without an instance node (ExternalInstance) are skipped before xml_instance() is called on them", fi.loc(c),
+                         why_fail="an xml-external / csv-external row in this section raises AttributeError: 'ExternalInstance' object has no attribute 'xml_instance'")
+    r4.check(n_k12 >= 2, "K12 census", f"{n_k12} traversals of self.children that build instance nodes examined", "pyxform/section.py")
     # K2: iteration over a possibly-None slot that another site guards
     guarded, unguarded = [], []
     for fi in repo.all_functions():
